@@ -38,21 +38,11 @@ func emit(l line) {
 }
 
 func build(name string, n int, args map[string]int) *mpexec.System {
-	switch name {
-	case "locksvc":
-		return sysdefs.Locksvc(n)
-	case "raftkvs":
-		get := func(k string, d int) int {
-			if v, ok := args[k]; ok {
-				return v
-			}
-			return d
-		}
-		return sysdefs.Raftkvs(sysdefs.RaftCfg{NumServers: n, NumClients: get("clients", 1), BufferSize: get("buffer", 3),
-			MaxNodeFail: get("maxfail", 1), ExploreFail: get("fail", 1) == 1, LeaderTimeoutReset: get("ltreset", 1) == 1,
-			AllStrings: []string{"s1", "s2", "s3"}[:get("strings", 2)], FIFO: get("fifo", 0) == 1})
+	b, ok := sysdefs.Lookup(name)
+	if !ok {
+		panic(fmt.Sprintf("unknown system %s (known: %v)", name, sysdefs.Names()))
 	}
-	panic("unknown system " + name)
+	return b(n, args)
 }
 
 // runOne executes one behaviour: the scheduler picks a live process at random (or per policy),
